@@ -196,6 +196,7 @@ func genLogical(t *rapid.T) logical {
 	// the body reaches the Envoy entry point as bytes or as string, depending on Envoy's configuration
 	// the body may come without an announced length (chunked transfer encoding); Envoy buffers it either way
 	l.LR.Chunked = len(l.LR.Body) != 0 && rapid.IntRange(0, 2).Draw(t, "chunkedBody") == 1
+	l.LR.EnvoyQuerySeparately = rapid.IntRange(0, 3).Draw(t, "envoyQuerySeparately") == 2
 	l.LR.EnvoyBodyAsString = len(l.LR.Body) != 0 && !strings.Contains(l.BodyKind, "empty") && rapid.IntRange(0, 2).Draw(t, "envoyBodyAsString") == 0
 
 	return l
